@@ -278,6 +278,10 @@ def expand(cases, backend="syn1", tokens=False, repeat=1, events=False, nproc=No
     if repeat != 1:
         args += ["--repeat", str(repeat)]
     lines = [json.dumps(c, separators=(",", ":")) for c in cases]
+    if os.environ.get("O2O_INPUT_LOG") and backend == "syn1":
+        # development aid (bin/coverage): keep every source text handed to the real derive, to measure which lines of o2o-impl the checks execute
+        with open(os.environ["O2O_INPUT_LOG"], "a") as fh:
+            fh.write("\n".join(lines) + "\n")
     return _run_lines(conf_bin(backend), args, lines, nproc=nproc)
 
 
